@@ -22,7 +22,7 @@
     one is an out-of-order file ([C11_partial_not_last]). *)
 From Coq Require Import List NArith Bool Arith Sorted.
 From Atlas Require Import Base.Bytes Exec.ExecModel Exec.PendingModel Exec.RunModel Exec.PendingProofs
-  Exec.StatusModel Exec.StatusProofs.
+  Exec.StatusModel Exec.StatusProofs Exec.HistoryModel Exec.HistoryProofs.
 Import ListNotations.
 
 Section C11.
@@ -440,6 +440,24 @@ Theorem C11_set_nothing_pending :
   c_order c <> LinearSkip /\ In f (ooo_files (r_version (hd r0 t')) v t' all).
 Proof. exact (set_nothing_pending hash). Qed.
 
+(** (H5) Whole histories (closed-loop model Exec/HistoryModel.v: [history] threads the
+    database -- table exists, rows, other resources -- through any sequence of
+    [migrate status / apply [n] --exec-order o --tx-mode m [--baseline v] [--allow-dirty]
+    [--dry-run] / set [v]] on directories that may change between the commands; statements
+    fail as an arbitrary oracle [fails] says). In every reachable state no version has two
+    rows and the reader returns a strictly sorted table: the hypothesis [sorted_revs] of the
+    theorems above holds at every step of every history, for all three transaction modes. *)
+Variable fails : bytes -> bool.
+
+Theorem C11_history_wf :
+  forall (ks : list (list file * cmd)) (d : db hash),
+  (forall all k, In (all, k) ks -> sorted_files all) ->
+  NoDup (map (@r_version hash) (db_revs d)) ->
+  Forall (fun ad => NoDup (map (@r_version hash) (db_revs (snd ad))) /\
+                    sorted_revs (db_read hash (snd ad)))
+         (history hash hash_eqb HS fails ks d).
+Proof. exact (history_wf hash hash_eqb HS fails). Qed.
+
 End C11.
 
 Print Assumptions C11_refines.
@@ -478,6 +496,7 @@ Print Assumptions C11_apply_n.
 Print Assumptions C11_apply_n_error.
 Print Assumptions C11_set.
 Print Assumptions C11_set_nothing_pending.
+Print Assumptions C11_history_wf.
 
 (** * Non-vacuity: concrete directories / tables meeting the hypotheses. *)
 Definition xf (v : N) (ck : bool) : file := mkFile [v] [[65%N]; [66%N]] ck.
@@ -669,4 +688,26 @@ Example C11_set_nonvacuous :
   migrate_set (hash := unit) None ex_all [] = SetArgs /\
   migrate_set None ex_all [xr 49 2 2] =
     SetOk [xr 49 2 2; mkRev [50%N] 0 0 [] false 4%N; mkRev [51%N] 0 0 [] false 4%N; mkRev [52%N] 0 0 [] false 4%N].
+Proof. vm_compute. repeat split; reflexivity. Qed.
+
+(** (H5) a history on a never-touched database: apply --tx-mode none fails in file 2
+    (second statement is rejected), status, set 2, apply *)
+Definition hx_fails (s : bytes) : bool := bytes_eqb s [68%N].
+Definition hx_dir : list file := [mkFile [49%N] [[65%N]] false; mkFile [50%N] [[67%N]; [68%N]] false; f3].
+Example C11_history_nonvacuous :
+  let h := history bytes bytes_eqb (fun b => b) hx_fails
+             [ (hx_dir, CApply Linear None false 0 TxNone false);
+               (hx_dir, CStatus);
+               (hx_dir, CSet (Some [50%N]));
+               (hx_dir, CApply Linear None false 0 TxFile false) ]
+             (mkDb false false []) in
+  map (fun ad => map (fun r => (r_version r, r_applied r, r_total r)) (db_read bytes (snd ad))) h =
+    [ [([49%N], 1, 1); ([50%N], 1, 2)];
+      [([49%N], 1, 1); ([50%N], 1, 2)];
+      [([49%N], 1, 1); ([50%N], 2, 2)];
+      [([49%N], 1, 1); ([50%N], 2, 2); ([51%N], 2, 2)] ] /\
+  match nth_error h 1 with
+  | Some (AStatus (SOk s), _) => s_pending s = [mkFile [50%N] [[67%N]; [68%N]] false; f3] /\ s_count s = 1 /\ s_total s = 2
+  | _ => False
+  end.
 Proof. vm_compute. repeat split; reflexivity. Qed.
